@@ -406,8 +406,61 @@ def run(ctx):
     reuse_stream(ctx, "CAPA", lambda: CAPA(min_segment_length=2), ctx.n(8, 60))
     reuse_stream(ctx, "MVCAPA", lambda: MVCAPA(min_segment_length=2), ctx.n(6, 40), p_choices=(2, 3))
     capa_params_stream(ctx)
+    cross_instance_stream(ctx)
     reuse_stream(ctx, "StatThresholdAnomaliser(PELT)", lambda: StatThresholdAnomaliser(PELT(min_segment_length=2), stat_lower=-1.0, stat_upper=1.0), ctx.n(4, 30),
                  p_choices=(1,), other_shape=False)
+
+
+def cross_instance_stream(ctx):
+    """State must not leak BETWEEN instances: two detectors of one class with different hyper-parameters are used one after the other in this process; the second one's
+    result is compared with the result of the same configuration computed in a FRESH interpreter (harness/isolated.py), where no other instance ever existed."""
+    import json
+    import subprocess
+    import sys
+    from harness import isolated
+    from harness.engine import REPO, VERIF
+    rng = ctx.rng
+    pairs = [("PELT", {"min_segment_length": 2}, {"min_segment_length": 5}),
+             ("MovingWindow", {"bandwidth": 3}, {"bandwidth": 7}),
+             ("SeededBinarySegmentation", {"min_segment_length": 2, "max_interval_length": 40}, {"min_segment_length": 5, "max_interval_length": 40}),
+             ("SeededBinarySegmentation", {"growth_factor": 1.5}, {"growth_factor": 2.0}),
+             ("CircularBinarySegmentation", {"min_segment_length": 2, "max_interval_length": 40}, {"min_segment_length": 5, "max_interval_length": 40}),
+             ("CircularBinarySegmentation", {"min_segment_length": 3, "max_interval_length": 30}, {"min_segment_length": 3, "max_interval_length": 60}),
+             ("CAPA", {"min_segment_length": 2, "max_segment_length": 10}, {"min_segment_length": 4, "max_segment_length": 30}),
+             ("MVCAPA", {"min_segment_length": 2, "max_segment_length": 10}, {"min_segment_length": 4, "max_segment_length": 30})]
+    for rep in range(ctx.n(2, 8)):
+        n = rng.randint(50, 80)
+        X = np.asarray([[rng.gauss(0, 1)] for _ in range(n)])
+        a = rng.randint(10, 25)
+        X[a:a + rng.randint(5, 9)] += 8.0
+        X[n - 20:n - 12] -= 7.0
+        X[n // 2:n // 2 + 3] += 6.0          # a SHORT event (3 samples): shorter than the larger min_segment_length of each pair
+        try:
+            proc = subprocess.run([sys.executable, "-m", "harness.isolated"], input=json.dumps({"X": X.tolist(), "configs": [[nm, kb] for nm, _, kb in pairs] + [[nm, ka] for nm, ka, _ in pairs]}),
+                                  capture_output=True, text=True, timeout=600, env=dict(__import__("os").environ, PYTHONPATH=f"{REPO}:{VERIF}", PYTHONWARNINGS="ignore"), cwd=VERIF)
+            alone = json.loads(proc.stdout[proc.stdout.index("["):])
+        except Exception as ex:
+            ctx.mismatch(f"the isolated reference run failed: {type(ex).__name__}: {str(ex)[:200]}", {"stderr": getattr(locals().get('proc'), 'stderr', '')[-400:]}, {"what": "isolated-run"})
+            return
+        for i_, (nm, ka, kb) in enumerate(pairs):
+            want_b, want_a = alone[i_], alone[len(pairs) + i_]
+            inp = {"detector": nm, "first_instance": ka, "second_instance": kb, "X": X.tolist()}
+            try:
+                got_a = isolated.run_one(nm, ka, X)
+                got_b = isolated.run_one(nm, kb, X)
+                got_a2 = isolated.run_one(nm, ka, X)
+            except Exception as ex:
+                ctx.violation(f"{nm}: using {ka} and then {kb} raised {type(ex).__name__}: {str(ex)[:120]}", inp, {"what": "exception", "op": "cross-instance", "cls": type(ex).__name__})
+                continue
+            ctx.case({"cross": nm, "rep": rep, "kb": str(kb)}, nontrivial=len(want_b[0]) > 0)
+            ctx.count("cross_instance", nm)
+            # (this process has used many other instances before: whichever configuration came first, every instance must behave as in a fresh interpreter)
+            for which, kw, got, want in (("first", ka, got_a, want_a), ("second", kb, got_b, want_b), ("first again", ka, got_a2, want_a)):
+                if got != want:
+                    ctx.violation(f"{nm}({kw}) used next to other instances of {nm} ({ka} / {kb}) in one process reports {str(got[0])[:140]}; the same configuration in a fresh "
+                                  f"interpreter reports {str(want[0])[:140]} (detections and published scores compared): state leaks between instances", dict(inp, which=which, got=got, alone=want),
+                                  {"what": "state-shared-between-instances", "detector": nm})
+                    break
 
 
 def capa_params_stream(ctx):
